@@ -266,11 +266,12 @@ fn x() -> T {
 
 /// Terms of the canonical grammar, depth <= `d`.
 pub fn grammar_terms(d: usize, big: bool) -> Vec<T> {
-    let mut base = vec![atom("a"), atom("two words"), T::Int(1), T::Int(42), T::Float(1.5), x(), v("$Long_name"), T::Anon];
+    // (`1e5` is an atom: Suiron's numbers have no exponent notation; `été`: a non-ASCII atom)
+    let mut base = vec![atom("a"), atom("two words"), T::Int(1), T::Int(42), T::Float(1.5), x(), v("$Long_name"), T::Anon, atom("1e5"), atom("été")];
     if big {
         base.extend(vec![atom("B9"), T::Float(0.25), T::Int(0)]);
         // atoms that look like numbers to a general-purpose number parser; non-ASCII atoms
-        base.extend(vec![atom("1e5"), atom("inf"), atom("NaN"), atom("Ωmega"), atom("été")]);
+        base.extend(vec![atom("inf"), atom("NaN"), atom("Ωmega")]);
     }
     if d == 0 {
         return base;
